@@ -224,7 +224,7 @@ func buildAll(dir string, cfgs []buildCfg) ([]built, *buildsys.Build, int) {
 func warm() int {
 	dir := workRoot()
 	defer os.RemoveAll(dir)
-	cfgs := []buildCfg{{Race: true}, {Race: false}}
+	cfgs := []buildCfg{{Race: true}, {Race: false}, {Race: true, Tags: []string{"protolegacy"}}}
 	_, _, code := buildAll(dir, cfgs)
 	return code
 }
@@ -309,7 +309,7 @@ func workerEnv(dir string, off int) []string {
 	if pluginPath != "" {
 		out = append(out, "PBSIM_PLUGIN="+pluginPath)
 	}
-	out = append(out, "GOMAXPROCS=1", "PBSIM_RACELOG="+rl, "GORACE=log_path="+rl+" halt_on_error=0 history_size=2", "PBSIM_WORKDIR="+dir, "PBSIM_MAPSEED=1")
+	out = append(out, "GOMAXPROCS=1", "PBSIM_RACELOG="+rl, "GORACE=log_path="+rl+" halt_on_error=0 history_size=4", "PBSIM_WORKDIR="+dir, "PBSIM_MAPSEED=1")
 	return out
 }
 
@@ -844,6 +844,12 @@ func shrink(b built, s *scn.Scn, class string, dir string, budget time.Duration)
 	// first: does the original reproduce at all?
 	cur := try(s, 0, false)
 	replays++
+	if cur == nil {
+		// e.g. a race report that the detector's bounded history lost this time:
+		// look for the same class again under fresh schedules of the same scenario
+		cur = try(s, 0, true)
+		replays += 48
+	}
 	if cur == nil {
 		return s, replays, false
 	}
